@@ -218,6 +218,9 @@ fn replay(id: &'static str, path: &str) -> i32 {
     if replay_kind(path) == "hist" && id == "C13" {
         return histprop::replay(&props::hist_family::c13_aux(), path);
     }
+    if replay_kind(path) == "hist" && id == "C10" {
+        return histprop::replay(&props::hist_family::c10_aux(), path);
+    }
     match id {
         "C10" => props::c10::replay(path),
         "C09" => props::c09::replay(path),
